@@ -208,7 +208,14 @@ def normaliser(ctx):
         for a in C.atoms_of(t):
             if float_derived(ctx, a, fn, float_names) and norm(a) not in free_atoms:
                 free_atoms.append(norm(a))
-    ctx.info["normaliser"] = {"variable": var, "breakpoints": sorted(points), "float_derived_tests": free_atoms}
+    # The function reads the bit length of its argument (directly or through a local): comparisons on it change at powers
+    # of two.  Every power of two up to 2**31 - and 2**(k-1), 2**k for every constant k that is compared - becomes a cell of
+    # its own; the cells in between hold values of one bit length and no power of two, so one representative still decides.
+    reads_bits = any(isinstance(n, ast.Attribute) and n.attr == "bit_length" for n in own_nodes(fn.node))
+    if reads_bits:
+        small = [v for v in points if 0 < v <= 70]
+        points |= {1 << k for k in range(0, 32)} | {1 << (k - 1) for k in small} | {1 << k for k in small}
+    ctx.info["normaliser"] = {"variable": var, "breakpoints": sorted(points), "float_derived_tests": free_atoms, "reads_bit_length": reads_bits}
     cells = []
     for lo, hi in regions(points):
         for p2 in (True, False):
@@ -249,6 +256,52 @@ def describe(out):
 def run_cell(ctx, fn, g, var, cell, fv, consts, float_names):
     state = {"kind": cell.kind, "escape": None, "ret": None, "raise": None}
     x = cell.rep
+    env = {}        # integer locals computed from the argument by exact integer arithmetic: name -> value on the representative
+
+    def int_eval(node):
+        """Exact value of an integer expression over the argument, its bit length and derived locals; LookupError when the
+        expression is anything else, TypeError when it does arithmetic on the unconverted string."""
+        if isinstance(node, ast.Name):
+            if node.id == var:
+                if not numeric():
+                    raise TypeError
+                return x
+            if node.id in env:
+                return env[node.id]
+        v0 = fold(node, consts)
+        if v0 is not None:
+            return v0
+        if isinstance(node, ast.Call) and isinstance(node.func, ast.Attribute) and node.func.attr == "bit_length" and not node.args and not node.keywords:
+            if isinstance(node.func.value, ast.Name) and node.func.value.id == var and not numeric():
+                state["escape"] = "bit_length() on a string raises AttributeError"
+                raise LookupError
+            return int_eval(node.func.value).bit_length()
+        if isinstance(node, ast.UnaryOp) and isinstance(node.op, ast.USub):
+            return -int_eval(node.operand)
+        if isinstance(node, ast.BinOp):
+            l, r = int_eval(node.left), int_eval(node.right)
+            op = node.op
+            if isinstance(op, ast.Add):
+                return l + r
+            if isinstance(op, ast.Sub):
+                return l - r
+            if isinstance(op, ast.Mult):
+                return l * r
+            if isinstance(op, ast.BitAnd):
+                return l & r
+            if isinstance(op, ast.BitOr):
+                return l | r
+            if isinstance(op, ast.BitXor):
+                return l ^ r
+            if isinstance(op, ast.FloorDiv) and r != 0:
+                return l // r
+            if isinstance(op, ast.Mod) and r != 0:
+                return l % r
+            if isinstance(op, (ast.LShift, ast.Pow)) and 0 <= r < 200 and (isinstance(op, ast.LShift) or abs(l) <= 2):
+                return (l << r) if isinstance(op, ast.LShift) else l ** r
+            if isinstance(op, ast.RShift) and r >= 0:
+                return l >> r
+        raise LookupError
 
     def numeric():
         return state["kind"] == "int"
@@ -317,10 +370,20 @@ def run_cell(ctx, fn, g, var, cell, fv, consts, float_names):
                     state["unknown"] = "the argument is rebound to %s" % norm(v)
             else:
                 state["unknown"] = "the argument is rebound to %s (not understood)" % norm(v)
+        elif isinstance(a, ast.Assign) and len(a.targets) == 1 and isinstance(a.targets[0], ast.Name) and mentions_bits(a.value):
+            try:
+                env[a.targets[0].id] = int_eval(a.value)
+            except (LookupError, TypeError, ValueError, OverflowError):
+                env.pop(a.targets[0].id, None)
+                if not state["escape"]:
+                    state["unknown"] = "the local %s = %s is not exact integer arithmetic over the argument" % (a.targets[0].id, norm(a.value))
         elif isinstance(a, ast.Return):
             state["ret"] = a.value
         elif isinstance(a, ast.Raise):
             state["raise"] = a.exc
+
+    def mentions_bits(e_):
+        return any((isinstance(n_, ast.Attribute) and n_.attr == "bit_length") or (isinstance(n_, ast.Name) and n_.id in env) for n_ in ast.walk(e_))
 
     def cmp_value(node, var=var):
         if isinstance(node, ast.Name) and node.id == var:
@@ -329,6 +392,8 @@ def run_cell(ctx, fn, g, var, cell, fv, consts, float_names):
             return x
         v = fold(node, consts)
         if v is None:
+            if var == fn.params[0] and mentions_bits(node):
+                return int_eval(node)
             raise LookupError
         return v
 
@@ -553,6 +618,8 @@ def _exponent_by_search(ctx, fn, e, size, fold_c):
         vals = [p_ for w_, p_ in ctx.res.bindings(fn).get(e.args[0].id, []) if w_ == "value"]
         if len(vals) == 1 and isinstance(vals[0], ast.GeneratorExp):
             e = ast.Call(func=e.func, args=[vals[0], e.args[1]], keywords=[])
+    if _exponent_clamped(ctx, fn, e, size, fold_c):
+        return
     ok_shape = isinstance(e, ast.Call) and norm(e.func) == "next" and len(e.args) == 2 and isinstance(e.args[0], ast.GeneratorExp) and len(e.args[0].generators) == 1
     if ok_shape:
         gen = e.args[0].generators[0]
@@ -583,6 +650,88 @@ def _exponent_by_search(ctx, fn, e, size, fold_c):
     else:
         ctx.decide("C12.2", fn, mono, "the exponent search stops later, never earlier, for a larger %s: the piece length never decreases as the payload grows" % size,
                    "the exponent search condition is not monotone in %s" % size, "monotonicity")
+
+
+def _exponent_clamped(ctx, fn, e, size, fold_c):
+    """Exponent written as a clamp  min(max(X, a), b)  /  max(min(X, b), a)  with constant a <= b: whatever X is, the exponent lies
+    in [a, b]; the choice never decreases as the payload grows when X is non-decreasing in the size (bit length of a
+    non-negative non-decreasing quantity included).  Returns True when the form was recognised (facts emitted)."""
+    def call(n, name):
+        return isinstance(n, ast.Call) and isinstance(n.func, ast.Name) and n.func.id == name and len(n.args) == 2 and not n.keywords \
+            and not any(isinstance(t, ast.Name) and t.id == name and isinstance(t.ctx, ast.Store) for t in own_nodes(fn.node))
+
+    def split(n, name):
+        ks = [(fold_c(a), b) for a, b in ((n.args[0], n.args[1]), (n.args[1], n.args[0])) if fold_c(a) is not None and fold_c(b) is None]
+        return ks[0] if len(ks) == 1 else (None, None)
+    a = b = x = None
+    if call(e, "min"):
+        b, inner = split(e, "min")
+        if inner is not None and call(inner, "max"):
+            a, x = split(inner, "max")
+    elif call(e, "max"):
+        a, inner = split(e, "max")
+        if inner is not None and call(inner, "min"):
+            b, x = split(inner, "min")
+    if a is None or b is None or x is None or a > b:
+        return False
+    ctx.decide("C12.2", fn, a >= 14, "exponent is clamped to at least %d (>= 14): result >= 16 KiB" % a, "exponent can be %d: the automatic choice can be below 16 KiB" % a, "exponent lower bound")
+    ctx.decide("C12.2", fn, b <= 24, "exponent is clamped to at most %d (<= 24): result <= 16 MiB" % b, "exponent can reach %d: the automatic choice can exceed 16 MiB (2**24)" % b, "loop bound of exponent")
+    binds = ctx.res.bindings(fn)
+
+    def value_of(n, depth=0):
+        if isinstance(n, ast.Name) and n.id != size and depth < 4:
+            vals = [p_ for w_, p_ in binds.get(n.id, [])]
+            kinds = [w_ for w_, p_ in binds.get(n.id, [])]
+            if len(vals) == 1 and kinds == ["value"]:
+                return vals[0]
+        return n
+
+    def mentions(n):
+        return any(isinstance(t, ast.Name) and (t.id == size or value_of(t) is not t) for t in ast.walk(n))
+
+    def nonneg(n, depth=0):
+        n = value_of(n)
+        if depth > 6:
+            return False
+        k = fold_c(n)
+        if k is not None:
+            return k >= 0
+        if isinstance(n, ast.Name) and n.id == size:
+            return True          # a payload size
+        if isinstance(n, ast.Call) and isinstance(n.func, ast.Name) and n.func.id == "max" and not n.keywords:
+            return any(nonneg(a_, depth + 1) for a_ in n.args)
+        if isinstance(n, ast.Call) and isinstance(n.func, ast.Attribute) and n.func.attr == "bit_length":
+            return True
+        if isinstance(n, ast.BinOp) and isinstance(n.op, (ast.FloorDiv, ast.RShift, ast.Mult, ast.Add)):
+            kr = fold_c(n.right)
+            return nonneg(n.left, depth + 1) and kr is not None and (kr > 0 or (kr == 0 and not isinstance(n.op, ast.FloorDiv)))
+        return False
+
+    def nondecr(n, depth=0):
+        n = value_of(n)
+        if depth > 6:
+            return False
+        if isinstance(n, ast.Name):
+            return n.id == size
+        if isinstance(n, ast.BinOp) and not mentions(n.right):
+            kr = fold_c(n.right)
+            if isinstance(n.op, (ast.Add, ast.Sub)):
+                return nondecr(n.left, depth + 1)
+            if isinstance(n.op, (ast.FloorDiv, ast.RShift, ast.Mult)) and kr is not None and kr > 0:
+                return nondecr(n.left, depth + 1)
+            if isinstance(n.op, ast.Div) and kr is not None and kr > 0:
+                return nondecr(n.left, depth + 1)
+            return False
+        if isinstance(n, ast.Call) and isinstance(n.func, ast.Name) and n.func.id in ("max", "min") and not n.keywords and n.args:
+            return all(fold_c(a_) is not None or nondecr(a_, depth + 1) for a_ in n.args) and any(fold_c(a_) is None for a_ in n.args)
+        if isinstance(n, ast.Call) and isinstance(n.func, ast.Attribute) and n.func.attr == "bit_length" and not n.args:
+            return nondecr(n.func.value, depth + 1) and nonneg(n.func.value)
+        return False
+    if nondecr(x):
+        ctx.holds("C12.2", fn, "the clamped exponent `%s` is non-decreasing in %s: a larger payload never gets a smaller piece length" % (norm(value_of(x))[:60], size), "monotonicity")
+    else:
+        ctx.undecided("C12.2", fn, "whether the clamped exponent `%s` is non-decreasing in %s was not established" % (norm(value_of(x))[:60], size), "monotonicity")
+    return True
 
 
 def upward_closed(c, size):
